@@ -252,7 +252,12 @@ impl Session {
                 watch::tick();
             }
         }
+        // the end of an iteration is "no more entries" only if the iterator reports no error
+        let status = iter.status();
         drop(iter);
+        if let Some(e) = status {
+            return Err(format!("iterator status: {}", err_string(&e)));
+        }
         Ok(out)
     }
 
@@ -273,7 +278,11 @@ impl Session {
                 watch::tick();
             }
         }
+        let status = iter.status();
         drop(iter);
+        if let Some(e) = status {
+            return Err(format!("iterator status: {}", err_string(&e)));
+        }
         out.reverse();
         Ok(out)
     }
